@@ -141,12 +141,11 @@ fn static_checks(vals: &[u32], rep: &mut Report) {
     if ef.is_empty() != (n == 0) {
         rep.fail("static:is_empty", size, || json!({"kind":"static","values":vals_json(vals)}));
     }
-    // universe: max value + 1 (0 for empty) — compare only the documented relation: every value < universe
-    if let Some(&mx) = vals.last() {
-        rep.evals(1);
-        if (ef.universe() as u64) <= mx as u64 && !(mx == u32::MAX) {
-            rep.fail("static:universe", size, || json!({"kind":"static","values":vals_json(vals),"universe":ef.universe()}));
-        }
+    // universe: documented as "maximum value + 1" (u64, so u32::MAX + 1 is representable); 0 for the empty sequence
+    rep.evals(1);
+    let exp_universe = vals.last().map_or(0u64, |&mx| mx as u64 + 1);
+    if ef.universe() != exp_universe {
+        rep.fail("static:universe", size, || json!({"kind":"static","values":vals_json(vals),"universe":ef.universe(),"expected":exp_universe}));
     }
     for i in 0..n + 2 {
         rep.trans(1);
@@ -164,6 +163,17 @@ fn static_checks(vals: &[u32], rep: &mut Report) {
     let it: Vec<u32> = (&ef).into_iter().collect();
     if it != vals {
         rep.fail("static:iter", size, || json!({"kind":"static","values":vals_json(vals)}));
+    }
+    // stepwise: element i at step i, and an exhausted iterator stays exhausted. (ExactSizeIterator::len() is NOT
+    // compared: it is off by one after the first next() on the unchanged tree — size_hint ignores `started` — but
+    // the property speaks of the elements iterated, not of the iterator's size hint; noted in DESIGN.md §7.)
+    let mut it2 = (&ef).into_iter();
+    for i in 0..=n + 1 {
+        rep.trans(1);
+        if it2.next() != vals.get(i).copied() {
+            rep.fail("static:iter:step", size, || json!({"kind":"static","values":vals_json(vals),"step":i}));
+            break;
+        }
     }
     let mut qs: Vec<u32> = vals.iter().flat_map(|&v| [v.wrapping_sub(1), v, v.wrapping_add(1)]).collect();
     qs.extend([0, 1, u32::MAX, u32::MAX - 1, 1 << 31]);
